@@ -300,9 +300,25 @@ def reduce_(case, ctx):
     if tuple(int(v) for v in bb) != want_bb:
         raise Violation("C06.boundary", f"boundary() = {tuple(int(v) for v in bb)} but the fields' coordinates "
                                         f"span {want_bb}")
-    with lentil_call("C06.reduce", "field.reduce"):
-        out = lfield.reduce(fields)
-    got = sum(render(f) for f in out)
+    # the collection as a list, a tuple or a one-shot iterable (a generator expression over a wavefront's fields,
+    # itertools.chain of two wavefronts' fields): "a number of Fields" - a refusal of one-shot iterables would be fine,
+    # silently losing fields is not
+    cform = ["list", "list", "tuple", "iter", "generator", "chain"][(len(fields) + int(abs(case[0]["offset"][0])) + 2 * int(abs(case[0]["offset"][1]))) % 6]
+    arg = {"list": lambda: fields, "tuple": lambda: tuple(fields), "iter": lambda: iter(fields),
+           "generator": lambda: (f_ for f_ in fields),
+           "chain": lambda: itertools.chain(fields[:len(fields) // 2], fields[len(fields) // 2:])}[cform]()
+    ctx.tag("collection_as:" + cform)
+    try:
+        with lentil_call("C06.reduce", f"field.reduce({cform})"):
+            out = lfield.reduce(arg)
+    except Violation as v_:
+        if cform in ("iter", "generator", "chain") and "TypeError" in v_.detail:
+            ctx.tag("one_shot_iterable_refused")
+            with lentil_call("C06.reduce", "field.reduce"):
+                out = lfield.reduce(fields)
+        else:
+            raise
+    got = sum(render(f) for f in out) if len(out) else 0 * exp
     if not close(got, exp):
         raise Violation("C06.reduce.total", "sum of reduced fields differs from sum of embeddings")
     if any(not np.array_equal(f.data, s0) for f, s0 in zip(fields, snaps)):
